@@ -50,6 +50,45 @@ func (e *Engine) verifyClosure(parent *Contract, cc *Contract) (res *UnitResult)
 	var lit *ast.FuncLit
 	var forSig *types.Signature
 	switch cc.ClosureKey {
+	case "lit":
+		// the n-th function literal of the function that is not the operand of a go statement
+		golits := map[*ast.FuncLit]bool{}
+		for _, gl := range findGoLits(fd.Body) {
+			golits[gl] = true
+		}
+		var lits []*ast.FuncLit
+		ast.Inspect(fd.Body, func(n ast.Node) bool {
+			if fl, ok := n.(*ast.FuncLit); ok && !golits[fl] {
+				lits = append(lits, fl)
+			}
+			return true
+		})
+		if cc.ClosureOrd < 1 || cc.ClosureOrd > len(lits) {
+			res.Err = fmt.Sprintf("contract-stale: %s has %d function literals, contract names #%d", parent.Key(), len(lits), cc.ClosureOrd)
+			return
+		}
+		lit = lits[cc.ClosureOrd-1]
+		if cc.Delegates != "" {
+			// syntactic obligation: the literal forwards to the named callee and does nothing else
+			ok := false
+			if len(lit.Body.List) == 1 {
+				if rs, isRet := lit.Body.List[0].(*ast.ReturnStmt); isRet && len(rs.Results) == 1 {
+					if call, isCall := ast.Unparen(rs.Results[0]).(*ast.CallExpr); isCall && normKey(e.nodeSrc(call.Fun)) == normKey(cc.Delegates) {
+						ok = true
+						for _, a := range call.Args {
+							if _, isId := ast.Unparen(a).(*ast.Ident); !isId {
+								ok = false
+							}
+						}
+					}
+				}
+			}
+			goal := "true"
+			if !ok {
+				goal = "false"
+			}
+			u.oblige("delegates:"+cc.Delegates, "frame", "the literal's body is exactly: return "+cc.Delegates+"(<variables>)", (&Frame{x: x}).pos(lit.Pos()), "true", goal)
+		}
 	case "for":
 		// the n-th bare `for { ... }` loop of the function (wherever it is nested): an event
 		// loop verified on its own, started from arbitrary values of the variables it uses
